@@ -5,7 +5,7 @@ from ..rules.match import FnText
 from ..model import AnalysisError, norm
 from ..astutil import short, call_name
 from ..report import fkey
-from ..rules import vectors
+from ..rules import vectors, guards
 from ..rules.common import *
 
 EXPLANATION = (
@@ -78,13 +78,30 @@ def conditional_flags(ctx, rule='A5f'):
         'conditionally_active=is_cond_act[i_dv]' in t
     ctx.ob(rule, fkey(f3, rule, 'eager-flag-from-marks'), ok, f3.where,
            'an eagerly encoded variable is conditionally active iff some stored design vector marks it -1', '')
+    # every existence pattern that has at least one valid vector takes part in the merge (a pattern without
+    # variables contributes the empty list, which makes all variables of the other patterns conditional)
+    def _appends(sub):
+        return isinstance(sub, ast.Call) and call_name(sub) == 'append' and isinstance(sub.func, ast.Attribute) and \
+            norm(sub.func.value) == merged
+    mcalls = calls(f3, 'merge_design_vars')
+    if len(mcalls) != 1 or not mcalls[0].args:
+        raise AnalysisError('EagerEncoder.get_design_variables: call of merge_design_vars not found')
+    merged = norm(mcalls[0].args[0])
+    def _no_vectors(atom, truth):
+        return truth and isinstance(atom, ast.Compare) and len(atom.ops) == 1 and isinstance(atom.ops[0], ast.Eq) and \
+            norm(atom.left).endswith('.shape[0]') and norm(atom.comparators[0]) == '0'
+    guards.check_loop_contributes(
+        ctx, rule, f3, lambda it: 'design_vectors' in norm(it), _appends, _no_vectors, 'every-pattern-merged',
+        'every existence pattern with at least one valid design vector contributes its variable list to the merge '
+        '(skipping a pattern that needs no variable leaves the variables of the other patterns flagged '
+        'unconditionally active although they are inactive there)')
     f4 = ctx.fn(f'{ENC}:EagerEncoder.merge_design_vars')
     t = FnText(ctx, f4)
     ok = 'is_cond_act = np.ones(n_opts.shape, dtype=bool)' in t and 'np.any(is_cond_act, axis=0)' in t
     ctx.ob(rule, fkey(f4, rule, 'merge-flag-any'), ok, f4.where,
            'merging existence patterns: a variable missing in some pattern, or conditional in any, is '
            'conditionally active', '')
-    return n + 5
+    return n + 6
 
 
 def check(ctx):
@@ -94,6 +111,10 @@ def check(ctx):
     vectors.inactive_value_contract(ctx)
     producers(ctx)
     conditional_flags(ctx)
+    from ..rules import indexspace as _ix
+    _ix.check_position_map_keys(ctx, [f for f in ctx.prog.all_functions() if f.module.name.startswith(('adsg_core.optimization.graph_processor', 'adsg_core.optimization.hierarchy'))],
+                                required=[f'{GP}.all_des_var_idx_map'])
+    ctx.floor('A21i', 2, 'position maps keyed by objects')
     ctx.floor('A5a', 8, 'vector-returning manager methods')
     ctx.floor('A5f', 6, 'conditional-activeness flag sites')
 
@@ -101,6 +122,10 @@ def check(ctx):
 from ..selftest import V  # noqa: E402
 
 VARIANTS = [
+    V('desvar-compared-by-value', 'optimization/dv_output_defs.py',
+      [("    def __str__(self):\n        if self.is_discrete:\n            return f'DV: ", "    def __hash__(self):\n        return hash(self.name)\n\n    def __eq__(self, other):\n        return isinstance(other, DesVar) and self.name == other.name\n\n    def __str__(self):\n        if self.is_discrete:\n            return f'DV: ")], key='A21i'),
+    V('zero-variable-pattern-skipped', 'optimization/assign_enc/encoding.py',
+      [("            if des_vectors.shape[1] == 0:\n                design_vars_list.append([])\n                continue\n", "            if des_vectors.shape[1] == 0:\n                continue\n")], key='every-pattern-merged'),
     V('manager-activeness-all-true', 'optimization/assign_enc/assignment_manager.py',
       [("        imputed_vector, matrix = self._encoder.get_matrix(vector, existence=existence)\n        imputed_vector, is_active = self._correct_is_active(imputed_vector)\n        return imputed_vector, is_active, matrix\n\n    def get_conn_idx(self, vector: DesignVector, existence: NodeExistence = None) \\\n            -> Tuple[DesignVector, IsActiveVector, Optional[List[Tuple[int, int]]]]:\n        \"\"\"Get node connections for a given design vector\"\"\"\n\n        # Get matrix",
         "        imputed_vector, matrix = self._encoder.get_matrix(vector, existence=existence)\n        is_active = np.ones((len(imputed_vector),), dtype=bool)\n        return imputed_vector, is_active, matrix\n\n    def get_conn_idx(self, vector: DesignVector, existence: NodeExistence = None) \\\n            -> Tuple[DesignVector, IsActiveVector, Optional[List[Tuple[int, int]]]]:\n        \"\"\"Get node connections for a given design vector\"\"\"\n\n        # Get matrix")],
